@@ -39,10 +39,12 @@ SPEC = {
         "and what the next build does (skip / rebuild / fail+second attempt, final tree clean or stale), also after a SECOND kill of "
         "the recovery attempt (crash2), file / directory / symlink outputs, xattr and fallback modes, with and without a dir cache and a "
         "post-build function; fs.WriteFile destination and "
-        "temporary after the reader died at byte N (in-process panic or SIGKILL of a re-executed child) for every N; encoding/gob on "
+        "temporary (content AND mode) after the reader died at byte N for every N and after a crash at the points close / rename / "
+        "renamed of WriteFile itself (hook src/fs/c32_verif.go; in-process panic or SIGKILL of a re-executed child); encoding/gob on "
         "every strict prefix of an encoded BuildMetadata; truncated fallback records of every length",
         "direct oracle: tree after the recovery build == clean build of the same sources in a fresh directory (HOME, XDG_*, cache dir in "
-        "scratch), first recovery attempt must succeed; fs.WriteFile destination is old or complete new",
+        "scratch), first recovery attempt must succeed; fs.WriteFile destination is (old content, old mode) or (complete new content, requested mode) — complete content "
+        "under the temporary's 0600 is reported as writefile-destination-complete-with-wrong-mode",
         "crash injection: src/build/c32_verif.go (//go:build verif) kills the process at the N-th verifOp call site of the chosen target; "
         "steps INSIDE one call (half-written gob, first unlink of RemoveAll on a directory, O_TRUNC / half-written fallback record) are "
         "emulated by the harness on the killed tree; timed SIGKILLs of the whole session hit everything else (parse, command, cache)",
@@ -80,4 +82,13 @@ M4 needsBuilding: the "every output exists" loop removed
 M5 harmless: StoreTargetMetadata's local `filename` renamed, two independent assignments in moveOutputs swapped
    -> exit 0, 31/31 obligations, no disagreement.
 (M1-M3, M5 were run on the first committed version of the check, 7429ec7; the later additions only add cases and theorems.)
+After the repair (/repo 214f1be):
+M6 buildTarget: the call removeRuleHash(target) removed again (re-introduces the three findings)
+   -> exit 1: C32_facts_ok fails (buildPhases back to [metadata, move, stamp, cache]); direct oracle: class
+      fallback-record-survives-output-replacement is no longer a known finding -> VIOLATION with the op line as replay.
+M7 (independently written) fs.WriteFile renames the temporary first and chmods the destination afterwards
+   -> exit 1: C32_facts_ok fails (writeFileCalls / writeFileChmodArgs); direct oracle: `wf 6f6c64 616263 0 2 4 renamed-p` leaves the
+      destination complete with mode 0600 (class writefile-destination-complete-with-wrong-mode) -> VIOLATION with that replay.
+Dry-runs of the repair itself: ./check baseline on the patched copy 347/347; VERIF_REPO=<patched copy> ./check C01|C02|C03 quick green
+(facts regenerated, 0 disagreements); C32 on the patched binary: 0 oracle failures, model agrees.
 """
